@@ -68,7 +68,11 @@ type RWMutex struct {
 	real    sync.RWMutex
 	writer  bool
 	readers int
+	waiting int // writers that have announced themselves (called Lock) and wait for the readers to drain
 }
+
+//go:norace
+func (m *RWMutex) addWaiting(d int) { m.waiting += d }
 
 //go:norace
 func (m *RWMutex) setW(v bool) { m.writer = v }
@@ -80,14 +84,22 @@ func (m *RWMutex) addR(d int) { m.readers += d }
 func (m *RWMutex) free() bool { return !m.writer && m.readers == 0 }
 
 //go:norace
-func (m *RWMutex) noWriter() bool { return !m.writer }
+func (m *RWMutex) noWriter() bool { return !m.writer && m.waiting == 0 }
 
 func (m *RWMutex) Lock() {
 	if !Active() {
 		m.real.Lock()
 		return
 	}
+	// Go's RWMutex is writer-preferring: from the moment a writer has called Lock, new readers block until it is done.
+	// The acquisition is therefore two steps: announce (always possible), then acquire (needs no reader and no writer).
+	point(opYield, nil, nil, nil, nil, nil)
+	if Aborting() {
+		return
+	}
+	m.addWaiting(1)
 	point(opLock, nil, m, nil, nil, nil)
+	m.addWaiting(-1)
 	if Aborting() {
 		return
 	}
